@@ -554,4 +554,101 @@ example : (⟨PROXY ++ [SP] ++ [0x55, 0x4E, 0x4B, 0x4E, 0x4F, 0x57, 0xC3, 0xA9, 
 
 end Examples
 
+/-! ## Which separator: the discriminator missing from `reassemble_sep` -/
+
+/-- **C15 (re-assembly, which separator).** `reassemble_sep` says the header text is
+`PROXY␠<protocol><sep><addresses_str>\r\n` with `sep` empty or one space, and the two
+views `protocol`, `addresses_str` alone do not tell which (`"PROXY UNKNOWN\r\n"` and
+`"PROXY UNKNOWN \r\n"` have the same views).  The length of the header text does: the
+single-space re-assembly is the header text exactly when the header is not the bare
+`PROXY␠<protocol>\r\n` (`6 + protocol.len() + 2` bytes). -/
+theorem sep_iff (h : Header) (hl : Spec.V1.Line ip6Model h.header h.addresses) :
+    h.header = PROXY ++ [SP] ++ h.protocol ++ [SP] ++ h.addressesStr ++ CRLF ↔
+      h.header.length ≠ 6 + h.protocol.length + 2 := by
+  obtain ⟨between, e, ha, hb⟩ := reassemble h hl
+  have hlen : h.header.length = 6 + h.protocol.length + between.length + 2 := by
+    have := congrArg List.length e
+    simp only [List.length_append, List.length_cons, List.length_nil, PROXY, CRLF] at this
+    omega
+  rcases hb with rfl | hb
+  · -- bare line: the single-space form is one byte too long
+    simp only [List.head?_nil, reduceCtorEq, if_false] at ha
+    constructor
+    · intro e2
+      have := congrArg List.length e2
+      rw [ha] at this
+      simp only [List.length_append, List.length_cons, List.length_nil, PROXY, CRLF] at this hlen
+      omega
+    · intro hne; simp only [List.length_nil] at hlen; omega
+  · cases between with
+    | nil => cases hb
+    | cons c t =>
+      simp only [List.head?_cons, Option.some.injEq] at hb
+      subst hb
+      constructor
+      · intro _; simp only [List.length_cons] at hlen; omega
+      · intro _
+        rw [ha, e]
+        simp only [List.head?_cons, if_true, List.drop_succ_cons, List.drop_zero, List.append_assoc,
+          List.cons_append, List.nil_append]
+
+/-- The complementary case: the empty-separator re-assembly is the header text exactly when
+the header is the bare `PROXY␠<protocol>\r\n`; then `addresses_str` is empty. -/
+theorem sep_nil_iff (h : Header) (hl : Spec.V1.Line ip6Model h.header h.addresses) :
+    h.header = PROXY ++ [SP] ++ h.protocol ++ h.addressesStr ++ CRLF ↔
+      h.header.length = 6 + h.protocol.length + 2 := by
+  constructor
+  · intro e
+    have e' : h.header = PROXY ++ [SP] ++ h.protocol ++ [] ++ h.addressesStr ++ CRLF := by
+      rw [List.append_nil]; exact e
+    have := (reassemble_sep_nil h hl e').2
+    rw [this]; simp only [List.length_append, List.length_cons, List.length_nil, PROXY, CRLF]
+  · intro hlen
+    obtain ⟨sep, hs, e⟩ := reassemble_sep h hl
+    rcases hs with rfl | rfl
+    · rw [List.append_nil] at e; exact e
+    · exact absurd hlen ((sep_iff h hl).mp e)
+
+/-- Exactly one of the two re-assemblies is the header text. -/
+theorem sep_exclusive (h : Header) (hl : Spec.V1.Line ip6Model h.header h.addresses) :
+    (h.header = PROXY ++ [SP] ++ h.protocol ++ [SP] ++ h.addressesStr ++ CRLF ∧
+      h.header ≠ PROXY ++ [SP] ++ h.protocol ++ h.addressesStr ++ CRLF) ∨
+    (h.header = PROXY ++ [SP] ++ h.protocol ++ h.addressesStr ++ CRLF ∧
+      h.header ≠ PROXY ++ [SP] ++ h.protocol ++ [SP] ++ h.addressesStr ++ CRLF) := by
+  simp only [ne_eq, sep_iff h hl, sep_nil_iff h hl]
+  omega
+
+theorem parseBytes_sep_iff {x : B} {h : Header} (hp : parseBytes x = .ok h) :
+    h.header = PROXY ++ [SP] ++ h.protocol ++ [SP] ++ h.addressesStr ++ CRLF ↔
+      h.header.length ≠ 6 + h.protocol.length + 2 :=
+  sep_iff h (wellFormed_of_parseBytes hp)
+
+theorem parseStr_sep_iff {x : B} {h : Header} (hp : parseStr x = .ok h) :
+    h.header = PROXY ++ [SP] ++ h.protocol ++ [SP] ++ h.addressesStr ++ CRLF ↔
+      h.header.length ≠ 6 + h.protocol.length + 2 :=
+  sep_iff h (wellFormed_of_parseStr hp)
+
+section SepExamples
+
+/-- `"PROXY UNKNOWN \r\n"` -/
+def exBareSp : Header := ⟨PROXY ++ [SP] ++ UNKNOWN ++ [SP] ++ CRLF, .unknown⟩
+
+example : Spec.V1.Line ip6Model exBare.header exBare.addresses :=
+  Spec.V1.Line.unknown [] (Or.inl rfl) (by decide)
+example : Spec.V1.Line ip6Model exBareSp.header exBareSp.addresses :=
+  Spec.V1.Line.unknown [SP] (Or.inr rfl) (by decide)
+
+/-- Both are accepted, both have protocol `UNKNOWN` and an empty address text … -/
+example : parseBytes exBare.header = .ok exBare ∧ parseBytes exBareSp.header = .ok exBareSp ∧
+    exBare.protocol = exBareSp.protocol ∧ exBare.addressesStr = [] ∧ exBareSp.addressesStr = [] := by
+  set_option maxRecDepth 8000 in decide
+
+/-- … and `sep_iff` tells them apart: 15 bytes = 6 + 7 + 2, against 16. -/
+example : exBare.header ≠ PROXY ++ [SP] ++ exBare.protocol ++ [SP] ++ exBare.addressesStr ++ CRLF :=
+  fun e => (sep_iff exBare (Spec.V1.Line.unknown [] (Or.inl rfl) (by decide))).mp e (by decide)
+example : exBareSp.header = PROXY ++ [SP] ++ exBareSp.protocol ++ [SP] ++ exBareSp.addressesStr ++ CRLF :=
+  (sep_iff exBareSp (Spec.V1.Line.unknown [SP] (Or.inr rfl) (by decide))).mpr (by decide)
+
+end SepExamples
+
 end C15
